@@ -308,29 +308,41 @@ def check_cse_mixin(ctx, model):
     want_key = ("lit", "tuple", (NODE, ("star", ("varargs",)))) if sig.vararg \
         else ("lit", "tuple", (NODE,))
     n_hit = n_miss = 0
+
+    def norm_key(k):
+        """(expr,) + args  ==  (expr, *args)"""
+        if isinstance(k, tuple) and k and k[0] == "binop" and k[1] == "Add" and \
+                k[2][0] == "lit" and k[2][1] == "tuple" and k[3] == ("varargs",):
+            return ("lit", "tuple", tuple(k[2][2]) + (("star", ("varargs",)),))
+        return k
+
     for ps in summarize(mem.node):
         if ps.term != "return":
             continue
-        key = ps.env.get("key")
-        ctx.ob("T/cse-mixin/key", key == want_key, loc,
-               "key = (expr, *args)" if key == want_key else
-               f"the CSE cache key is not (expr, *args)")
         stores = [e for e in ps.events if e.kind == "itemwrite"]
         computes = [e for e in ps.events if e.kind == "selfcall"
                     and e.name == "map_common_subexpression_uncached"]
         missed = any(isinstance(v, tuple) and v[0] == "except"
                      and "KeyError" in v[1] for _, _, v in ps.conds)
+        # the key: what the table is indexed with (hit) / stored under (miss)
+        if not missed:
+            key = ps.retval[-1] if ps.retval[0] == "index" else None
+        else:
+            key = stores[0].args[0] if stores else None
+        key = norm_key(key)
+        ctx.ob("T/cse-mixin/key", key == want_key, loc,
+               "key = (expr, *args)" if key == want_key else
+               f"the CSE cache key is not (expr, *args)")
         if not missed:
             n_hit += 1
-            ok = ps.retval[0] == "index" and ps.retval[-1] == key and not stores \
-                and not computes
+            ok = ps.retval[0] == "index" and not stores and not computes
             ctx.ob("P/cse-mixin/hit", ok, loc,
                    "a hit returns the stored result" if ok else
                    "the hit path of the CSE cache computes or stores")
         else:
             n_miss += 1
             ok = len(computes) == 1 and len(stores) == 1 and \
-                stores[0].args[0] == key and stores[0].value == ps.retval and \
+                stores[0].value == ps.retval and \
                 computes[0].args[0] == NODE and computes[0].fwd_args
             ctx.ob("P/cse-mixin/miss", ok, loc,
                    "a miss computes once, stores under the key, returns it"
